@@ -19,6 +19,128 @@ KEY_DLEAK = None     # connection leaked when a tcp dialer closes as its connect
                      # result) repaired in /repo e9a11c8
 
 
+KEY_SFDQ = "sfd-listen-queue-shift"       # sockfd.c sfd_start_conn shifts listen_q[i] = listen_q[i + 1]: slot 0 kept, slot 1 lost
+KEY_SFDC = "sfd-listen-close-twice"       # sockfd.c sfd_listener_close leaves listen_cnt: stop closes the queued descriptors again
+
+
+# ------------------------------------------------------------------ socket-fd listener hand-over queue (src/core/sockfd.c)
+SFD_CAP = 16
+
+
+def gen_sfdq(rng):
+    L, nf, na, waiting = [], 0, 0, []
+    shape = rng.choice(["fds_first", "accepts_first", "mixed", "mixed", "full"])
+
+    def setfd():
+        nonlocal nf
+        if nf < 46:
+            L.append("setfd f%d" % nf)
+            nf += 1
+
+    def accept():
+        nonlocal na
+        if na < 46:
+            L.append("accept a%d" % na)
+            waiting.append(na)
+            na += 1
+    if shape == "fds_first":
+        for _ in range(rng.choice([1, 2, 3, 5, 8, 15, 16, 17, 18])):
+            setfd()
+        for _ in range(rng.randrange(0, 20)):
+            accept()
+    elif shape == "accepts_first":
+        for _ in range(rng.randrange(1, 6)):
+            accept()
+        if rng.random() < 0.4 and waiting:
+            L.append("cancel a%d" % rng.choice(waiting))
+        for _ in range(rng.randrange(0, 22)):
+            setfd()
+        for _ in range(rng.randrange(0, 6)):
+            accept()
+    elif shape == "full":
+        for _ in range(SFD_CAP + rng.randrange(0, 3)):
+            setfd()
+        for _ in range(rng.randrange(0, 4)):
+            accept()
+            setfd()
+        for _ in range(rng.randrange(0, SFD_CAP + 2)):
+            accept()
+    else:
+        for _ in range(rng.randrange(4, 40)):
+            r = rng.random()
+            if r < 0.5:
+                setfd()
+            elif r < 0.9:
+                accept()
+            elif waiting:
+                L.append("cancel a%d" % rng.choice(waiting))
+            else:
+                L.append("poll")
+    if rng.random() < 0.8:
+        L.append("close")
+        if rng.random() < 0.7:
+            L.append("probe")
+        if rng.random() < 0.8:
+            L.append(rng.choice(["stop", "close"]))
+        for _ in range(rng.randrange(0, 3)):
+            if rng.random() < 0.5:
+                setfd()
+            else:
+                accept()
+    L.append("poll")
+    return L
+
+
+SFDL = re.compile(r"^rv=(\d+)( NOT-QUIESCENT)? done=(\S+) fds=(\S+)(?: probe=([oc]))?$")
+
+
+def sfdq_oracle(case, out):
+    """the property's words on the implementation's own lines: every descriptor the listener took over is handed to
+    exactly one accept, in the order taken, or closed by the listener; nothing else is closed.  None or (i, key, text)"""
+    took, delivered, closed = [], [], set()
+    for i, line in enumerate(case):
+        m = SFDL.match(out[i]) if i < len(out) else None
+        if m is None:
+            return (i, None, "no/odd observation %r" % (out[i] if i < len(out) else None))
+        t = line.split()
+        rv, done, fds, probe = int(m.group(1)), m.group(3), m.group(4), m.group(5)
+        if t[0] == "setfd" and rv == 0:
+            took.append(int(t[1][1:]))
+        if t[0] == "setfd" and rv not in (0, 7, 22):
+            return (i, None, "NNG_OPT_SOCKET_FD returned %d" % rv)
+        st = {} if fds == "-" else {int(x.split(":")[0][1:]): x.split(":")[1] for x in fds.split(",")}
+        for x in ([] if done == "-" else done.split(",")):
+            f = x.split(":")
+            if f[1] != "0":
+                continue
+            pair = int(f[2][1:])
+            if pair in delivered:
+                return (i, KEY_SFDQ, "descriptor f%d handed to a second accept (%s)" % (pair, f[0]))
+            if pair not in took:
+                return (i, KEY_SFDQ, "accept %s got a descriptor (tag %d) the listener was never given" % (f[0], pair))
+            earlier = [p for p in took[:took.index(pair)] if p not in delivered and p not in closed and st.get(p, "q")[0] != "c"]
+            if earlier:
+                return (i, KEY_SFDQ, "descriptor f%d handed out while f%d, taken over earlier, is still waiting" % (pair, earlier[0]))
+            delivered.append(pair)
+        for p, s in st.items():
+            if s[0] == "c":
+                if p in delivered:
+                    return (i, KEY_SFDC, "descriptor f%d was closed by the listener after it had been handed to an accept" % p)
+                closed.add(p)
+        if probe == "c":
+            return (i, KEY_SFDC, "the listener closed a descriptor it does not own (opened by the application after nng_stream_listener_close)")
+        if t[0] in ("close", "stop") or ("close" in [l.split()[0] for l in case[:i]]):
+            lost = [p for p in took if p not in delivered and p not in closed]
+            if lost:
+                return (i, KEY_SFDQ, "after close descriptor f%d is neither delivered nor closed (lost, leaked)" % lost[0])
+    return None
+
+
+def run_one(binp, case, timeout=60):
+    out, crash = run_cases(binp, [case], timeout=timeout)
+    return out[0], crash
+
+
 def san_key(errtxt, finished):
     """classify a sanitizer report of a scenario run: defects outside C14's words that the stress scenarios expose"""
     if "ERROR: AddressSanitizer: heap-use-after-free" in errtxt:
@@ -419,20 +541,32 @@ def scen_oracle(kind, out):
         elif t[0] == "L":
             f = dict(x.split("=") for x in t[2:])
             if f["open"] == "1" and f["target_open"] == "1" and f["pipe"] != "1" and int(f.get("stable", "0")) < 3:
-                return "dialer %s is open, its listener is open, and after %s ms (virtual clock advanced throughout) it has no pipe" % (t[1], f["waited"])
+                return "liveness: dialer %s is open, its listener is open, and after %s ms (virtual clock advanced throughout) it has no pipe" % (t[1], f["waited"])
         elif t[0] == "R":
             f = dict(x.split("=") for x in t[2:])
             bound = int(P.get("bound", "0"))
             if f["arrived"] == "0":
-                return "no connection attempt within 4 s of real time after the virtual clock had been advanced by the larger reconnect time (%d ms): %s" % (bound, l)
+                return "liveness: no connection attempt within 4 s of real time after the virtual clock had been advanced by the larger reconnect time (%d ms): %s" % (bound, l)
             if f.get("armed") == "1":
                 rem, cur = int(f["rem"]), int(f["cur"])
                 if (bound == 0 and rem > 0) or (bound > 0 and rem >= bound):
                     return "redial delay: %d ms left, larger reconnect time %d: %s" % (rem, bound, l)
+        elif t[0] == "Q":
+            if len(t) > 2 and t[2] == "setup-failed":
+                continue
+            f = dict(x.split("=") for x in t[2:])
+            if f.get("l2rv") == "0" and int(f.get("stable", "0")) < 3:
+                lost = [k for k, v in f.items() if k.startswith("d") and v != "1"]
+                return ("liveness: the listener was closed and a new one opened at the same address (%s, variant %s: %s); %s ms later, the virtual clock "
+                        "advanced past the larger reconnect time (%s ms) throughout, open dialer(s) %s still have no pipe: %s" %
+                        (P.get("transport"), f.get("variant"),
+                         {"0": "connects queued behind a slow ADD_PRE callback", "1": "connects queued behind a slow ADD_PRE callback",
+                          "2": "peers connected", "3": "closed right after the dials"}.get(f.get("variant"), "?"),
+                         f.get("waited"), P.get("bound"), ",".join(lost), l))
         elif t[0] == "H":
             f = dict(x.split("=") for x in t[2:])
             if f["ctl_rv"] != "0" or f["s_addpost"] != "1":
-                return "after hostile peer behaviour %s a well-behaved client could not connect (rv %s, listener saw ADD_POST: %s): %s" % (f["kind"], f["ctl_rv"], f["s_addpost"], l)
+                return "liveness: after hostile peer behaviour %s a well-behaved client could not connect (rv %s, listener saw ADD_POST: %s): %s" % (f["kind"], f["ctl_rv"], f["s_addpost"], l)
     return None
 
 
@@ -474,7 +608,7 @@ def run(tier, seed, replay=None):
     gate = coq_gate()
     rep.proof_cov(cb, "make -C coq Props/Properties_C14.vo && coqc Props/Properties_C14.v (Print Assumptions) ; grep gate")
     proof_ok = ok and cb["ok"] and not gate
-    model_build("c14")
+    model_build("c14", "c14sfd")
     bdir, err = nng_build("asan")
     if bdir is None:
         p = rep.replay_file("build_failed.txt", err)
@@ -508,7 +642,9 @@ def run(tier, seed, replay=None):
 
     # ---- 1. scripted cases: implementation vs model vs oracle
     n = 450 if tier == "quick" else 14000
-    if replay:
+    if replay and replay.endswith(".sfdq"):
+        cases = []
+    elif replay:
         cases = [[l.strip() for l in open(replay) if l.strip() and not l.startswith("#")]]
     else:
         cases = load_corpus("C14") + [gen_script(rng, tier, fixmax) for _ in range(n)]
@@ -579,6 +715,65 @@ def run(tier, seed, replay=None):
                 p = rep.replay_file("backoff_overflow.case", "\n".join(case_overflow()) + "\n# " + iout[0][5] + "\n")
                 rep.violation(p, "d_currtime wrapped to %d" % o["d"][0]["cur"], key=KEY_OVF)
 
+    # ---- 2b. the socket-fd listener's hand-over queue: wb_sfdq.c vs Core/SfdqModel vs the oracle, one process per case
+    sfd_stats = {"cases": 0, "lines": 0, "diverged": 0, "oob_crashes": 0, "oracle_failures": 0}
+    sfd_impl, err = wb_build(bdir, "wb_sfdq.c")
+    if sfd_impl is None:
+        p = rep.replay_file("wb_sfdq_build.txt", err)
+        rep.violation(p, "sfd queue driver does not build against the current tree", nofail=True)
+    elif not replay or replay.endswith(".sfdq"):
+        sfd_model = model_bin("modeld_c14sfd")
+        rngs = random.Random(seed * 7919 + 13)
+        if replay:
+            sfd_cases = [[l.strip() for l in open(replay) if l.strip() and not l.startswith("#")]]
+        else:
+            sfd_cases = [[l.strip() for l in open(os.path.join(VERIF, "corpus", "C14", f)) if l.strip() and not l.startswith("#")]
+                         for f in sorted(os.listdir(os.path.join(VERIF, "corpus", "C14"))) if f.endswith(".sfdq")]
+            sfd_cases += [gen_sfdq(rngs) for _ in range(160 if tier == "quick" else 3000)]
+        sfd_div = []
+
+        def one(ci):
+            if not os.path.exists(sfd_impl):
+                return ci, None, (0, -1, "driver binary vanished"), None
+            io, crash = run_one(sfd_impl, sfd_cases[ci])
+            mo, _ = run_one(sfd_model, sfd_cases[ci])
+            return ci, io, crash, mo
+        with concurrent.futures.ThreadPoolExecutor(max_workers=5) as ex:
+            for ci, io, crash, mo in ex.map(one, range(len(sfd_cases))):
+                case = sfd_cases[ci]
+                sfd_stats["cases"] += 1
+                sfd_stats["lines"] += len(case)
+                rep.cov["evaluations"] += len(case)
+                body = "\n".join(case) + "\n"
+                if crash:
+                    _, rc, errtxt = crash
+                    oob = "out of bounds" in errtxt and "sockfd.c" in errtxt
+                    sfd_stats["oob_crashes"] += oob
+                    p = rep.replay_file("sfdq_crash_%d.sfdq" % ci, "# rc=%s %s\n" % (rc, san_summary(errtxt)) + body)
+                    rep.violation(p, "socket-fd listener: %s" % (san_summary(errtxt) or "driver crashed rc=%s" % rc), key=KEY_SFDQ if oob else None)
+                    # the model must have predicted the out-of-bounds read
+                    if oob and "OOB" not in (mo or []):
+                        rep.violation(p, "socket-fd listener read listen_q out of bounds where the model does not", nofail=True)
+                    continue
+                bad = sfdq_oracle(case, io)
+                if bad:
+                    sfd_stats["oracle_failures"] += 1
+                    k, key, text = bad
+                    p = rep.replay_file("sfdq_spec_%d.sfdq" % ci, "# %s at op %d (%s)\n" % (text, k, case[k] if k < len(case) else "?") + body)
+                    rep.violation(p, "socket-fd listener: %s (op %d: %s)" % (text, k, case[k] if k < len(case) else "?"), key=key)
+                for k in range(len(case)):
+                    a = io[k] if k < len(io) else None
+                    b = mo[k] if k < len(mo) else None
+                    if a != b:
+                        sfd_div.append((ci, k, case[k], a, b))
+                        break
+        sfd_stats["diverged"] = len(sfd_div)
+        if sfd_div and not rep.violations:
+            ci, k, line, a, b = sfd_div[0]
+            p = rep.replay_file("sfdq_diverge_%d.sfdq" % ci, "# model and implementation differ at op %d: %s\n# impl : %s\n# model: %s\n" % (k, line, a, b) + "\n".join(sfd_cases[ci]) + "\n")
+            rep.violation(p, "correspondence SfdqModel <-> sockfd.c broken on %d cases (no input violating the property found); first: op %r impl=%r model=%r" % (len(sfd_div), line, a, b), nofail=True)
+    rep.cov["sfd_listen_queue"] = sfd_stats
+
     # ---- 3. real transports, raw peers
     scen = []
     if not replay:
@@ -593,7 +788,12 @@ def run(tier, seed, replay=None):
                     scen.append(("redial", [tr, seed * 1000 + 100 * j + i, mn, mx, 14 if tier == "quick" else 40]))
             for i in range(3 if tier == "quick" else 30):
                 scen.append(("hostile", [tr, seed * 1000 + i, 14 if tier == "quick" else 40]))
-    sc_hist = {"real": 0, "redial": 0, "hostile": 0}
+        # listener closed / re-opened while connects are queued on it, in handshake, or established
+        for tr, ns in (("inproc", 5), ("ipc", 2), ("tcp", 2)):
+            for i in range(ns if tier == "quick" else ns * 12):
+                scen.append(("lrestart", [tr, seed * 1000 + i, 5 if tier == "quick" else 12]))
+    sc_hist = {"real": 0, "redial": 0, "hostile": 0, "lrestart": 0}
+    confirmations = {"reruns": 0, "not_confirmed": 0}
     sc_events = 0
     sc_rounds = 0
     with concurrent.futures.ThreadPoolExecutor(max_workers=5) as ex:
@@ -606,7 +806,7 @@ def run(tier, seed, replay=None):
             rc, out, errtxt = f.result()
             sc_hist[k] += 1
             sc_events += sum(1 for l in out if l.startswith("E "))
-            sc_rounds += sum(1 for l in out if l.startswith(("R ", "H ", "L ")))
+            sc_rounds += sum(1 for l in out if l.startswith(("R ", "H ", "L ", "Q ")))
             name = "%s_%s.log" % (k, "_".join(str(x) for x in a))
             if rc != 0:
                 p = rep.replay_file(name, "# wb_pipeev %s %s (rc=%s)\n" % (k, " ".join(map(str, a)), rc) + "\n".join(out[-200:]) + "\n" + errtxt[:6000] + "\n...\n" + errtxt[-1500:])
@@ -616,6 +816,20 @@ def run(tier, seed, replay=None):
                 if not wleak:
                     continue
             bad = scen_oracle(k, out)
+            if bad and bad.startswith("liveness: "):
+                # a liveness clause failed within its real-time allowance: confirm on the same input (a loaded machine
+                # may starve the library's threads for seconds); it counts when it fails again at least once in two re-runs
+                again = 0
+                for _ in range(2):
+                    confirmations["reruns"] += 1
+                    rc2, out2, err2 = run_scen(impl, [k] + a, 300)
+                    b2 = scen_oracle(k, out2) if rc2 == 0 else None
+                    if b2 and b2.startswith("liveness: "):
+                        again += 1
+                        break
+                if again == 0:
+                    confirmations["not_confirmed"] += 1
+                    bad = None
             if bad:
                 p = rep.replay_file(name, "# wb_pipeev %s %s\n# %s\n" % (k, " ".join(map(str, a)), bad) + "\n".join(out) + "\n")
                 rep.violation(p, "C14 (%s %s): %s" % (k, a[0], bad))
@@ -630,8 +844,8 @@ def run(tier, seed, replay=None):
         "distinct_nontrivial": len(set(hash(tuple(c)) for c in cases)),
         "scripted_cases": len(cases), "scripted_lines_compared": lines_cmp, "scripted_divergences": len(diverged),
         "real_time_skips": rt_skips, "schedule_dependent_skips": sched_skips, "op_histogram": hist, "model_flags": flags,
-        "scenarios": sc_hist, "scenario_pipe_events": sc_events, "scenario_rounds": sc_rounds,
-        "rule": "scripted: random scripts over bus0/pair0/pair1 sockets with 0-2 deterministic listeners and 0-2 deterministic dialers (harness/wb_pipeev.c: every accept/connect completion, result code, peer loss, pipe/endpoint/socket close, callback that closes its pipe, notify mask, reconnect option, clock advance is a command), implementation vs extracted models line by line + oracle (order/at-most-once, REM_POST by close, reject-in-ADD_PRE carries no I/O, one pipe per dialer, delay left < larger reconnect time, timer armed after loss/failed dial, accept re-armed or cooling down); real: 3 bus sockets, 3-6 listeners, 4-10 dialers over tcp/ipc/inproc, random pipe closes, rejections in ADD_PRE/ADD_POST, endpoint closes, sends, clock advances, sockets closed in random order, oracle on the callback log; redial: raw TCP/UNIX listener that resets / garbles / mis-negotiates / accepts-then-drops, virtual clock advanced by the larger reconnect time per round; hostile: raw client (resets before accept, garbage and short handshakes, foreign protocol, silent hold until the negotiation timeout, bursts) with a control client that must connect and be seen by the listener each time",
+        "scenarios": sc_hist, "liveness_confirmations": confirmations, "scenario_pipe_events": sc_events, "scenario_rounds": sc_rounds,
+        "rule": "scripted: random scripts over bus0/pair0/pair1 sockets with 0-2 deterministic listeners and 0-2 deterministic dialers (harness/wb_pipeev.c: every accept/connect completion, result code, peer loss, pipe/endpoint/socket close, callback that closes its pipe, notify mask, reconnect option, clock advance is a command), implementation vs extracted models line by line + oracle (order/at-most-once, REM_POST by close, reject-in-ADD_PRE carries no I/O, one pipe per dialer, delay left < larger reconnect time, timer armed after loss/failed dial, accept re-armed or cooling down); real: 3 bus sockets, 3-6 listeners, 4-10 dialers over tcp/ipc/inproc, random pipe closes, rejections in ADD_PRE/ADD_POST, endpoint closes, sends, clock advances, sockets closed in random order, oracle on the callback log; redial: raw TCP/UNIX listener that resets / garbles / mis-negotiates / accepts-then-drops, virtual clock advanced by the larger reconnect time per round; hostile: raw client (resets before accept, garbage and short handshakes, foreign protocol, silent hold until the negotiation timeout, bursts) with a control client that must connect and be seen by the listener each time; lrestart: a listener closed and re-opened at the same address (inproc/ipc/tcp) while 2-3 open dialers are queued on it behind a slow ADD_PRE callback, in handshake or connected -- each must hold a pipe to the new listener once the larger reconnect time has passed on the virtual clock (failures of liveness clauses are confirmed by re-runs); socket-fd listener queue: see sfd_listen_queue",
         "samples": [cases[0][:16]] if cases else [],
         "only_observed": ["real thread schedules (the scripted cases are quiescent between commands; the real scenarios sample schedules)",
                           "the transports' and streams' result codes (theorem listener_stop_codes_only_by_close_partial assumes src_ok)",
